@@ -596,14 +596,16 @@ example : ∃ c, Reach (evlSys true) (({ ev := EV.init, lock := false } : EVL),
 /-- **Quiescence equality for compositions.**  Any wiring of base sets, DerivedSets (`plus`, mirrored in-edges) and
 SubtractReactive results (one `plus` in-edge, `minus` ones for the subtracted sets) — a derived object fed by derived
 objects, to any depth — under asynchronous delivery: base writes, subscriptions (`connect`: registration + snapshot
-atomic, initial report queued) and deliveries in any order, every derived node publishing its own change **in the
+atomic, initial report queued), **unsubscriptions of DerivedSet sources** (`unsubMark`: the callback is cancelled and
+undelivered reports are dropped; `unsubRemove`: the mirror is withdrawn from the occurrence counts) and deliveries in
+any order, every derived node publishing its own change **in the
 step in which it applies it** (the notification inside the write mutex: `C14_skeleton_set_Compute`,
 `C14_skeleton_derivedSet_inheritMutations`, `C14_skeleton_set_Apply`, `C14_skeleton_set_Replace`).  When everything
-is subscribed and delivered, every derived node satisfies its defining equation over the current values of its
-direct inputs (element by element: the model is the projection on one element). -/
+is delivered and no unsubscription is half done, every derived node satisfies its defining equation over the current
+values of the inputs it is *currently subscribed to* (`GS.live`) (element by element: the model is the projection on one element). -/
 theorem C14_compose_quiescent (base : Nat → Bool) (wiring : List (Nat × Nat × Bool × Bool)) (ops : List GOp)
     (hq : (gRun true base (GS.init wiring) ops).quiescent = true) :
-    GS.localEq base (gRun true base (GS.init wiring) ops).edges (gRun true base (GS.init wiring) ops).v :=
+    GS.localEq base (gRun true base (GS.init wiring) ops).live (gRun true base (GS.init wiring) ops).v :=
   g_quiescent base wiring ops hq
 
 /-- The equation of a node whose in-edges are all `plus` (a DerivedSet): the element is in it iff some source holds it. -/
@@ -644,7 +646,7 @@ notifies) breaks it already two levels deep: `S = A \ B`, `T = DerivedSet(S)`, `
 `S` overtake each other; everything is delivered, `x ∉ S` and `x ∈ T`. -/
 theorem C14_compose_late_publication_witness :
     let s := gRun false (fun j => decide (j < 2)) (GS.init gDemoWiring) gDemoOps
-    s.quiescent = true ∧ s.v 2 = false ∧ s.v 3 = true ∧ ¬ GS.localEq (fun j => decide (j < 2)) s.edges s.v := by
+    s.quiescent = true ∧ s.v 2 = false ∧ s.v 3 = true ∧ ¬ GS.localEq (fun j => decide (j < 2)) s.live s.v := by
   refine ⟨g_demo_witness.1, g_demo_witness.2.1, g_demo_witness.2.2, fun h => ?_⟩
   have h3 := h 3 (by decide)
   rw [g_demo_witness.2.2] at h3
@@ -658,6 +660,33 @@ example : (gRun true (fun j => decide (j < 2))
     [.write 0 true, .connect 0, .connect 1, .connect 2, .deliver 0, .write 1 true, .connect 3, .connect 4, .deliver 2, .deliver 1,
      .connect 5, .deliver 3, .deliver 2, .deliver 4, .deliver 5, .write 1 false, .deliver 1, .deliver 5, .deliver 2, .deliver 4]).quiescent = true := by
   decide
+
+
+/-- Non-vacuity with a structural change inside the composition: `T = DerivedSet(S, A)` over `S = A \ B` unsubscribes
+from `S` while `A` and `B` are written; at the end `T` follows `A` alone. -/
+example :
+    let s := gRun true (fun j => decide (j < 2))
+      (GS.init [(0, 2, true, false), (1, 2, false, false), (2, 3, true, true), (0, 3, true, true)])
+      [.write 0 true, .connect 0, .connect 1, .connect 2, .connect 3, .deliver 0, .deliver 2, .deliver 3, .unsubMark 2,
+       .write 1 true, .deliver 1, .unsubRemove 2, .write 0 false, .deliver 0, .deliver 3]
+    s.quiescent = true ∧ s.live.length = 3 ∧ s.v 3 = false ∧ s.v 2 = false := by
+  decide
+
+/-- The shapes the harness builds (`stress stack`, `gs` lines) are acyclic wirings — every edge leads to a
+higher-numbered node — with base sets 0, 1, 2 only as sources, so `C14_compose_unique` applies to each of them: what the
+`q` lines / `gs` lines compare at quiescence is the composed function of the three base sets. -/
+theorem C14_compose_shapes_acyclic :
+    ∀ name ∈ ["ds-sub", "ds-ds", "ds-ds-sub", "sub-sub", "sub-ds", "ds-sub-ds", "sub-subs", "ds-sub-sub"],
+      ∃ nodes, gShape name = some nodes ∧
+        (gWiringOf nodes).all (fun w => decide (w.1 < w.2.1) && decide (3 ≤ w.2.1)) = true := by
+  decide
+
+
+/-- What the driver does between two requests of a `gs` case (all reports delivered) is a run of the graph model, so the
+states it prints are the quiescent states `C14_compose_quiescent` is about. -/
+theorem C14_compose_settle_is_run (base : Nat → Bool) (fuel : Nat) (s : GS) :
+    ∃ ops, gSettle base fuel s = gRun true base s ops :=
+  gSettle_run base fuel s
 
 /-! ## No deadlock: lock order over scripts derived from the regenerated skeletons -/
 
